@@ -4,7 +4,7 @@ EXTENDS PoolOwnership, TLC
 
 VARIABLE shared   \* KF1 only: <<offset, thread>> pairs - further threads holding an offset that another thread owns
 
-KnownIds == {"C08-KF1", "C08-KF2", "C08-KF3", "C08-KF4"}
+KnownIds == {"C08-KF1", "C08-KF4"}
 
 (* C08-KF1 (the C07-KF11 defect seen by concurrent users): the five-level ThreadLocalPool hands out  *)
 (* offsets relative to the arena of the CALLING thread in the one MemOffset space of the pool, so   *)
